@@ -31,6 +31,7 @@ CONSTANTS TraceFile, Props
 
 MinuteLen == 60
 R == INSTANCE AofReplay
+V == INSTANCE ValueReg        \* the register interpreter of C15 (Apply on decoded frames): the value a record describes
 
 Trace == ndJsonDeserialize(TraceFile)
 
@@ -71,6 +72,8 @@ Report(mm, p, code, detail) ==
          THEN [mm EXCEPT !.nv = @ + 1] ELSE mm
     ELSE mm
 
+CI0(mm) == [generation |-> IF mm.ctx = "" THEN 1 ELSE 2]
+
 Check(mm, cond, p, code, detail) == IF cond THEN mm ELSE Report(mm, p, code, detail)
 
 Diverge(mm, what, detail) ==
@@ -96,8 +99,14 @@ M0 == [ nv |-> 0, ndiv |-> 0, name |-> "", aoftime |-> 1, parcent |-> 300,
         cuttorn |-> FALSE,     \* the crash image the current second epoch started from ended in partial bytes of a record / header
         cutnoval |-> FALSE,    \* ... its record file ended on a record boundary but a value frame of a whole record was missing / partial (A2b)
         cptrefdisk |-> <<>>, cptreft |-> 0,
+        \* bursts (requests run while the records of earlier ones are still queued, handed to the log by reference)
+        bq |-> <<>>,           \* records pushed by the burst in progress: [db, key, lid, ty, has, atpush, exp, hex, judged, i]
+        bcur |-> EmptyFn,      \* <<db,key>> -> stored value of the key after the last request of the burst (bytes)
+        bexp |-> EmptyFn,      \* <<db,key>> -> [pres (values before a burst, hex), recs (value-carrying burst records of the key in log order:
+                               \*                [file, n, hex, judged])]
+        nbreq |-> 0, nbrec |-> 0, nbfrm |-> 0, nbagn |-> 0, nbimg |-> 0, nbskip |-> 0,
         njudged |-> 0, nmust |-> 0, nmay |-> 0, nmustnot |-> 0, nrestored |-> 0, nvalchk |-> 0, nvalskip |-> 0,
-        ncut |-> 0, nprefix |-> 0, ncpt |-> 0, nrefine |-> 0, nrefskip |-> 0, nstop |-> 0, nstop2 |-> 0 ]
+        ncut |-> 0, nprefix |-> 0, ncpt |-> 0, nrefine |-> 0, nrefskip |-> 0, nstop |-> 0, nstop2 |-> 0, ncptexact |-> 0 ]
 
 StepBegin(mm, e) == [M0 EXCEPT !.nv = mm.nv, !.ndiv = mm.ndiv, !.name = e.name, !.aoftime = e.aoftime, !.parcent = e.parcent1000]
 
@@ -105,7 +114,10 @@ StepEnd(mm, e) ==
     IF PrintT("STAT " \o ToJson([name |-> mm.name, judged |-> mm.njudged, must |-> mm.nmust, may |-> mm.nmay, mustnot |-> mm.nmustnot,
                                  restored |-> mm.nrestored, valchk |-> mm.nvalchk, valskip |-> mm.nvalskip, cuts |-> mm.ncut,
                                  prefixes |-> mm.nprefix, cptimgs |-> mm.ncpt, refined |-> mm.nrefine, refskip |-> mm.nrefskip,
-                                 stops |-> mm.nstop, stops2 |-> mm.nstop2]))
+                                 stops |-> mm.nstop, stops2 |-> mm.nstop2,
+                                 burst_requests |-> mm.nbreq, burst_records |-> mm.nbrec, burst_frames_judged |-> mm.nbfrm,
+                                 burst_requests_agnostic |-> mm.nbagn, burst_image_values_judged |-> mm.nbimg, bursts_not_located |-> mm.nbskip,
+                                 cpt_deadlines_exact |-> mm.ncptexact]))
     THEN mm ELSE mm
 
 \* a hold ends when its unlock is accepted (also one level of a re-entrant hold: conservative) or it expires
@@ -314,6 +326,124 @@ Refine(mm, e) ==
                                               real |-> [i \in 1..Cardinality(DOMAIN real) |-> real[SetToSeq(DOMAIN real)[i]]]])
 
 -----------------------------------------------------------------------------
+\* Bursts (C08).  A record is handed to the log writer BY REFERENCE (AofChannel.Push keeps the live value slice of the
+\* key) and copied into the value file only when the channel goroutine gets to it.  The record a request persists
+\* describes the value its own operation left; the monitor computes that value with the register interpreter of C15
+\* (ValueReg!ApplyFrame over the observed value before the request) and adopts nothing from the log:
+\*   bstep  the computed value must be what the instance shows after the request (else the request is an open case of
+\*          C15 / an interleaving the fold does not cover: its records are not judged)
+\*   bdisk  every value frame the burst put into a value file is the computed value of its record, byte for byte
+\*          -> logged-value-frame-differs-from-record
+\*   prefix / cut images: the value recovered for a key written by bursts is the value of one of its records up to the
+\*          cut (or the value before the burst)      -> recovered-value-is-the-value-of-no-record-prefix
+StepBBegin(mm, e) == [mm EXCEPT !.bq = <<>>, !.bcur = EmptyFn]
+
+StepBStep(mm, e) ==
+    LET k      == <<e.db, e.key>>
+        known  == k \in DOMAIN mm.bcur
+        before == e.pre.val
+        ok0    == known => mm.bcur[k] = e.pre.val
+        mine   == SelectSeq(e.replies, LAMBDA r : r.rid = e.rid)
+        rep    == IF mine = <<>> THEN [res |-> -1, lc |-> 0, lrc |-> 0] ELSE mine[1]
+        upd    == Bit(e.flag, 2)
+        exec   == e.issued /\ mine # <<>> /\ ((e.cmd = "L" /\ rep.res = 0) \/ (e.cmd = "L" /\ rep.res = 5 /\ upd) \/ (e.cmd = "U" /\ rep.res = 0))
+        open   == e.cmd = "L" /\ rep.res = 0 /\ e.ex = 0 /\ rep.lrc >= 1 /\ ~upd
+        hasop  == e.op # <<>>
+        wf     == V!WellFormedValue(before) /\ (hasop => (V!WellFormedFrame(e.op) /\ e.op[5] % 64 \notin {V!T_EXECUTE, V!T_PIPELINE} /\ e.op[5] \div 64 = 0))
+        agn    == exec /\ hasop /\ (~wf \/ open \/ V!Agnostic(V!Dec(before), V!DecOp(e.op)))
+        edge   == IF e.cmd = "L" THEN rep.lc = 1 ELSE (rep.lc = 0 /\ ~e.pre.waited)
+        computed == IF exec /\ hasop /\ ~agn THEN V!ApplyFrame(before, e.op, edge) ELSE before
+        ok     == ok0 /\ ~agn /\ Len(e.replies) <= 1 /\ computed = e.post.val
+        \* the frame by which the log says "the key has no value" (lock.go NewLockManagerDataUnsetData)
+        FrameOf(v) == IF v = <<>> THEN <<2, 0, 0, 0, V!T_UNSET, 0>> ELSE v
+        Entry(p) == LET judged == ok /\ p.db = e.db /\ p.key = e.key /\ p.has /\ p.data = FrameOf(computed)
+                    IN [db |-> p.db, key |-> p.key, lid |-> p.lid, ty |-> p.ty, has |-> p.has, atpush |-> p.data,
+                        exp |-> IF judged THEN FrameOf(computed) ELSE p.data, hex |-> IF judged THEN e.post.hex ELSE "?", judged |-> judged, i |-> e.i,
+                        prehex |-> e.pre.hex]
+        bx     == IF k \in DOMAIN mm.bexp THEN mm.bexp[k] ELSE [pres |-> {}, recs |-> <<>>]
+    IN [mm EXCEPT !.bq = @ \o [j \in 1..Len(e.pushed) |-> Entry(e.pushed[j])],
+                  !.bcur = SetFn(@, k, e.post.val),
+                  !.bexp = IF known THEN @ ELSE SetFn(@, k, [bx EXCEPT !.pres = @ \cup {e.pre.hex}]),
+                  !.nbreq = @ + 1, !.nbagn = @ + (IF ok THEN 0 ELSE 1)]
+
+StepBDisk(mm, e) ==
+    LET P == mm.bq
+        KeyOf(x) == <<x.db, x.key>>
+        PKeys == {KeyOf(P[j]) : j \in 1..Len(P)}
+        Unjudge(bexp) == [k \in DOMAIN bexp |-> IF k \in PKeys THEN [bexp[k] EXCEPT !.recs = Append(@, [file |-> "", n |-> 0, hex |-> "?", judged |-> FALSE])] ELSE bexp[k]]
+    IN
+    IF e.lost
+    THEN \* a compaction replaced the files while the queue drained: the burst's records cannot be located
+         [mm EXCEPT !.bq = <<>>, !.bexp = Unjudge(@), !.nbskip = @ + 1]
+    ELSE
+    LET F == e.files
+        D == FoldLeft(LAMBDA acc, f : acc \o [j \in 1..Len(f.recs) |-> f.recs[j] @@ [file |-> f.name]], <<>>, F)
+        \* the i-th record of a key in the files is the i-th record the burst pushed for that key (one channel per key, FIFO)
+        RankD(i) == Cardinality({j \in 1..i : KeyOf(D[j]) = KeyOf(D[i])})
+        PSet(i) == {j \in 1..Len(P) : KeyOf(P[j]) = KeyOf(D[i])}
+        PIdx(i) == IF Cardinality(PSet(i)) < RankD(i) THEN 0
+                   ELSE CHOOSE j \in PSet(i) : Cardinality({x \in PSet(i) : x <= j}) = RankD(i)
+        matchOK == /\ Len(D) = Len(P)
+                   /\ \A i \in 1..Len(D) : /\ PIdx(i) > 0
+                                           /\ P[PIdx(i)].ty = D[i].ty /\ P[PIdx(i)].lid = D[i].lid /\ P[PIdx(i)].has = D[i].has
+    IN
+    IF ~matchOK
+    THEN [Diverge(mm, "burst-records", [pushed |-> Len(P), on_disk |-> Len(D)]) EXCEPT !.bq = <<>>, !.bexp = Unjudge(@), !.nbskip = @ + 1]
+    ELSE
+    LET \* one value file: walk the value-carrying records of the file in order
+        Base(fi) == FoldLeft(LAMBDA acc, f : acc + Len(f.recs), 0, SubSeq(F, 1, fi - 1))
+        Walk(fi) ==
+            LET f == F[fi]
+                idx == SelectSeq([j \in 1..Len(f.recs) |-> Base(fi) + j], LAMBDA i : D[i].has)
+                step(acc, i) ==
+                    IF acc.stop THEN acc
+                    ELSE LET p == P[PIdx(i)]
+                             n == Len(p.exp)
+                             hi == IF acc.off + n > Len(f.dbytes) THEN Len(f.dbytes) ELSE acc.off + n
+                             got == SubSeq(f.dbytes, acc.off + 1, hi)
+                         IN IF got = p.exp THEN [acc EXCEPT !.off = @ + n, !.nok = @ + (IF p.judged THEN 1 ELSE 0)]
+                            ELSE [acc EXCEPT !.stop = TRUE,
+                                             !.bad = IF p.judged
+                                                     THEN <<[file |-> f.name, record_in_file |-> D[i].n, db |-> p.db, key |-> p.key, lid |-> p.lid,
+                                                             request_of_burst |-> p.i, value_of_the_record |-> p.exp, on_disk |-> got,
+                                                             handed_to_the_log |-> p.atpush, value_file_offset |-> f.dpre + acc.off,
+                                                             why |-> IF p.atpush = p.exp THEN "frame-changed-between-hand-over-and-write" ELSE ""]>>
+                                                     ELSE <<>>]
+                res == FoldLeft(step, [off |-> 0, stop |-> FALSE, bad |-> <<>>, nok |-> 0, alljudged |-> \A i \in 1..Len(idx) : P[PIdx(idx[i])].judged], idx)
+            IN IF ~res.stop /\ res.off # Len(f.dbytes) /\ res.alljudged
+               THEN [res EXCEPT !.bad = <<[file |-> f.name, record_in_file |-> 0, bytes_of_no_record |-> Len(f.dbytes) - res.off, value_file_offset |-> f.dpre + res.off, why |-> ""]>>]
+               ELSE res
+        walks == [fi \in 1..Len(F) |-> Walk(fi)]
+        m1 == FoldLeft(LAMBDA acc, fi : FoldLeft(LAMBDA a2, b : Report(a2, "C08", "logged-value-frame-differs-from-record", b @@ CI0(mm)), acc, walks[fi].bad),
+                       mm, [fi \in 1..Len(F) |-> fi])
+        nok == FoldLeft(LAMBDA acc, fi : acc + walks[fi].nok, 0, [fi \in 1..Len(F) |-> fi])
+        \* the value-carrying records of every key in log order, for the image clauses
+        NewRecs(k) == LET I == SelectSeq([i \in 1..Len(D) |-> i], LAMBDA i : KeyOf(D[i]) = k /\ D[i].has)
+                      IN [x \in 1..Len(I) |-> [file |-> D[I[x]].file, n |-> D[I[x]].n, hex |-> P[PIdx(I[x])].hex, judged |-> P[PIdx(I[x])].judged]]
+        bexp2 == [k \in DOMAIN m1.bexp |-> IF k \in PKeys THEN [m1.bexp[k] EXCEPT !.recs = @ \o NewRecs(k)] ELSE m1.bexp[k]]
+    IN [m1 EXCEPT !.bq = <<>>, !.bexp = bexp2, !.nbrec = @ + Len(D), !.nbfrm = @ + nok]
+
+\* the value recovered from a crash image for a key written by bursts
+BurstImage(mm, e, N, file) ==
+    IF ~e.ok THEN mm
+    ELSE
+    LET rec == e.keys
+        Idx(k) == {x \in 1..Len(rec) : rec[x].db = k[1] /\ rec[x].key = k[2]}
+        RecData(k) == rec[CHOOSE x \in Idx(k) : TRUE].data
+        Recs(k) == mm.bexp[k].recs
+        Jud(k) == Recs(k) # <<>> /\ \A i \in 1..Len(Recs(k)) : Recs(k)[i].judged
+        Upto(k) == {i \in 1..Len(Recs(k)) : Recs(k)[i].file # file \/ Recs(k)[i].n <= N}
+        Adm(k) == mm.bexp[k].pres \cup {Recs(k)[i].hex : i \in Upto(k)}
+        cand == {k \in DOMAIN mm.bexp : Jud(k) /\ Idx(k) # {}}
+        bad == {k \in cand : RecData(k) \notin Adm(k)}
+        m1 == [mm EXCEPT !.nbimg = @ + Cardinality(cand)]
+    IN FoldLeft(LAMBDA acc, k : Report(acc, "C08", "recovered-value-is-the-value-of-no-record-prefix",
+                                       [db |-> k[1], key |-> k[2], recovered |-> RecData(k), values_of_the_record_prefixes |-> SetToSeq(Adm(k)),
+                                        image |-> e.role, file |-> file, whole_records_before_cut |-> N,
+                                        value_records_of_the_key_before_cut |-> Cardinality(Upto(k))]),
+                m1, SetToSeq(bad))
+
+-----------------------------------------------------------------------------
 \* one recovery of an image
 StepRec0(mm, e) ==
     LET m1 == Refine(mm, e)
@@ -328,7 +458,8 @@ StepRec0(mm, e) ==
             \* restart after a second epoch: C08 (after a crash image) or C07 (after a clean restart)
             Judge(m1, IF mm.ctx = "cut" THEN "C08" ELSE "C07", e)
       [] e.role = "prefix" ->
-            [m1 EXCEPT !.prefixes = Append(@, [ok |-> e.ok, st |-> st, t |-> e.rnow]), !.nprefix = @ + 1, !.lastrec = e.keys, !.cuttorn = FALSE, !.cutnoval = FALSE]
+            LET m2 == IF "file" \in DOMAIN e THEN BurstImage(m1, e, e.n, e.file) ELSE m1
+            IN [m2 EXCEPT !.prefixes = Append(@, [ok |-> e.ok, st |-> st, t |-> e.rnow]), !.nprefix = @ + 1, !.lastrec = e.keys, !.cuttorn = FALSE, !.cutnoval = FALSE]
       [] e.role = "cut" ->
             LET n   == Len(m1.prefixes)
                 adm == {i \in 1..n : i - 1 <= e.ncomp /\ m1.prefixes[i].ok}
@@ -341,7 +472,7 @@ StepRec0(mm, e) ==
                 det == [file |-> e.file, cut_at |-> e.x, value_file_cut_at |-> e.y, whole_records_before_cut |-> e.ncomp,
                         torn_record |-> torn /\ e.x >= 12, torn_header |-> e.x < 12 /\ e.x > 0, torn_record_or_header |-> torn,
                         value_file_torn |-> dt, torn_tail |-> tt, err |-> e.err]
-                m2 == [m1 EXCEPT !.ncut = @ + 1, !.lastrec = e.keys, !.cuttorn = torn, !.cutnoval = dt]
+                m2 == [BurstImage(m1, e, e.ncomp, e.file) EXCEPT !.ncut = @ + 1, !.lastrec = e.keys, !.cuttorn = torn, !.cutnoval = dt]
             IN IF ~e.ok THEN Report(m2, "C08", "start-fails-after-crash", det)
                ELSE IF hit = {} THEN Report(m2, "C08", "recovered-state-is-no-record-prefix",
                                             det @@ [recovered_keys |-> SetToSeq(DOMAIN st), nprefixes |-> n, started_at |-> e.rnow,
@@ -364,8 +495,19 @@ StepRec0(mm, e) ==
                 ref == m1.cptref
                 img == st
                 both == DOMAIN ref \cap DOMAIN img
-                bad == R!DiffKeysAt(ref, img, later)
+                \* "the same holds, depths, deadlines and values": both states were recovered by the same code, the compacted files
+                \* should hold the very records of the replaced ones.  A seconds-unit deadline is CommandTime + ExpriedTime + 1
+                \* whatever the second of the start: it must come back EXACTLY.  Where a minute-unit (or millisecond-unit) request
+                \* is involved on either side the tolerance stays one unit + 1 s: such a deadline is computed from the second of
+                \* the start, and the replay of a minute-unit update skips it when the hold's deadline is within a minute of it
+                \* (so which of two close updates survives depends on the other records present - seen on the unchanged code).
+                Coarse(h) == Bit(h.ef, 64) \/ Bit(h.ef, 1024)
+                Tol(a, b) == IF Coarse(a) \/ Coarse(b)
+                             THEN (IF R!UnitOf(a.ef) > R!UnitOf(b.ef) THEN R!UnitOf(a.ef) ELSE R!UnitOf(b.ef)) + 1
+                             ELSE 0
+                bad == R!DiffKeysAtT(ref, img, later, Tol)
                 chg == bad \cap both
+                nexact == Cardinality(UNION {{<<k, i>> : i \in {i \in 1..Len(ref[k].H) : ref[k].H[i].exp < INF /\ ~Coarse(ref[k].H[i]) /\ ~R!Near(ref[k].H[i], later)}} : k \in both})
                 \* classification detail only: which records of the replaced files are missing from the image's files
                 rr == R!AllRecs(LoadedFiles(m1.cptrefdisk))
                 ir == IF m1.havedisk THEN R!AllRecs(LoadedFiles(m1.disk)) ELSE <<>>
@@ -375,17 +517,31 @@ StepRec0(mm, e) ==
                 SameId(a, b) == a.db = b.db /\ a.key = b.key /\ a.lid = b.lid
                 RefSkipMix == \E i \in 1..Len(rr) : <<rr[i].db, rr[i].key>> \in bad /\ R!Dead(rr[i], e.rnow)
                                                      /\ \E j \in 1..Len(rr) : SameId(rr[i], rr[j]) /\ rr[j].ty = 1 /\ ~R!Dead(rr[j], e.rnow)
+                \* does a record of the replaced files describe the terms its hold has when those files are recovered (it is the
+                \* record that set them last)?  The compaction filter (LockDB.HasLock -> CheckLockedEqual) drops update-flag
+                \* records whose terms are no longer the holder's: A30 is about those.  A dropped update-flag record that DOES
+                \* describe the current terms is another matter (the moved deadline is lost).
+                RecDl(r) == R!DeadlineOf(r.ef, R!ReplayExpried(r, m1.cptreft), m1.cptreft)
+                RefHold(i) == LET H == ref[<<rr[i].db, rr[i].key>>].H IN H[R!IdxOfLid(H, rr[i].lid)]
+                Current(i) == HeldInRef(i) /\ RefHold(i).exp = RecDl(rr[i]) /\ RefHold(i).cnt = rr[i].cnt /\ RefHold(i).rc = rr[i].rc
                 why == IF RefSkipMix THEN "expired-records-skipped-one-by-one"
-                       ELSE IF \E i \in Dropped : rr[i].ty = 1 /\ Bit(rr[i].fl, 2) /\ HeldInRef(i) THEN "record-of-live-hold-taken-with-update-flag-dropped"
+                       ELSE IF \E i \in Dropped : rr[i].ty = 1 /\ Bit(rr[i].fl, 2) /\ HeldInRef(i) /\ ~Current(i) THEN "record-of-live-hold-taken-with-update-flag-dropped"
+                       ELSE IF \E i \in Dropped : rr[i].ty = 1 /\ Bit(rr[i].fl, 2) /\ Current(i) THEN "update-record-with-the-current-terms-of-a-live-hold-dropped"
                        ELSE IF Dropped # {} /\ (\A i \in Dropped : ~HeldInRef(i)) /\ (\E i \in Dropped : R!HasData(rr[i]))
                                  /\ (\A k \in bad : k \in both /\ Len(ref[k].H) = Len(img[k].H)) THEN "value-set-by-released-hold-dropped"
                        ELSE ""
+                \* the deadlines of the holds on the changed keys, both sides (report detail)
+                Dls(S, k) == IF k \in DOMAIN S THEN [i \in 1..Len(S[k].H) |-> [lid |-> S[k].H[i].lid, depth |-> S[k].H[i].depth, deadline |-> S[k].H[i].exp]] ELSE <<>>
+                chgseq == SetToSeq(chg)
                 det == [run |-> e.run, crash_after |-> e.step, err |-> e.err, trigger |-> e.trigger, why |-> why,
-                        changed_keys |-> SetToSeq(chg), dropped_records |-> Cardinality(Dropped)]
-                m2 == [m1 EXCEPT !.ncpt = @ + 1, !.havecptref = FALSE]
+                        changed_keys |-> chgseq, dropped_records |-> Cardinality(Dropped),
+                        from_replaced_files |-> [x \in 1..Len(chgseq) |-> Dls(ref, chgseq[x])],
+                        from_compacted_files |-> [x \in 1..Len(chgseq) |-> Dls(img, chgseq[x])],
+                        starts_at |-> <<m1.cptreft, e.rnow>>]
+                m2 == [m1 EXCEPT !.ncpt = @ + 1, !.havecptref = FALSE, !.ncptexact = @ + (IF e.final /\ e.ok /\ m1.cptrefok THEN nexact ELSE 0)]
             IN IF ~m1.havecptref \/ ~m1.cptrefok THEN m2
                ELSE IF ~e.ok THEN Report(m2, "C16", IF e.final THEN "start-fails-after-compaction" ELSE "start-fails-after-interrupted-compaction", det)
-               ELSE IF ~R!StateEqAt(ref, img, later)
+               ELSE IF ~R!StateEqAtT(ref, img, later, Tol)
                     THEN Report(m2, "C16", IF e.final THEN "compaction-changed-recoverable-state"
                                            ELSE "interrupted-compaction-changed-recoverable-state",
                                 det @@ [reference_keys |-> SetToSeq(DOMAIN ref), image_keys |-> SetToSeq(DOMAIN img),
@@ -422,6 +578,9 @@ Step(mm, e) ==
       [] e.e = "rec"     -> StepRec(mm, e)
       [] e.e = "e2begin" -> StepE2Begin(mm, e)
       [] e.e = "e2end"   -> StepE2End(mm, e)
+      [] e.e = "bbegin"  -> StepBBegin(mm, e)
+      [] e.e = "bstep"   -> StepBStep(mm, e)
+      [] e.e = "bdisk"   -> StepBDisk(mm, e)
       [] OTHER           -> mm
 
 Init == l = 1 /\ m = M0
